@@ -392,7 +392,11 @@ func genC01(env *core.Env, emit func(core.Case)) {
 			if !p.collide && k != p.targetPos {
 				kid = id + uint8(k+1)
 			}
-			kms = append(kms, gen.NewKey(r, kid, "public.example", suites))
+			pn := "public.example"
+			if k != p.targetPos && r.IntN(2) == 0 {
+				pn = "other-public.example" // another deployment's key, possibly under the same one-byte id
+			}
+			kms = append(kms, gen.NewKey(r, kid, pn, suites))
 		}
 		target := kms[p.targetPos]
 		clientKey := target
